@@ -4,6 +4,7 @@ Exit codes: 0 all obligations discharged (known findings printed), 1 violation(s
 known_findings.json, 2 the analysis could not be carried out (anchor vanished, floor missed, ...).
 """
 import argparse
+import re
 import importlib
 import json
 import os
@@ -119,6 +120,10 @@ def matches_known(o, prop, known):
         if k['property'] != prop or k['rule'] != o['rule']:
             continue
         if k.get('subject') and k['subject'] != o['subject']:
+            continue
+        if k.get('subject_re') and not re.search(k['subject_re'], o['subject']):
+            continue
+        if k.get('detail_re') and not re.search(k['detail_re'], o['detail']):
             continue
         if k.get('disc') and k['disc'] != o['disc']:
             continue
